@@ -29,6 +29,16 @@ func ssaOriginsIP(p *core.Program, v ssa.Value, stop func(*ssa.Function) bool) [
 	return ssaOriginsX(v, stop, p)
 }
 
+// ssaOriginsIPWithin is ssaOriginsIP restricted to call sites in the given functions (the code one command can reach):
+// a helper shared by two commands is then read in the context of the command under analysis.
+func ssaOriginsIPWithin(p *core.Program, v ssa.Value, stop func(*ssa.Function) bool, within map[*ssa.Function]bool) []originLeaf {
+	originsWithin = within
+	defer func() { originsWithin = nil }()
+	return ssaOriginsX(v, stop, p)
+}
+
+var originsWithin map[*ssa.Function]bool
+
 func ssaOriginsX(v ssa.Value, stop func(*ssa.Function) bool, ip *core.Program) []originLeaf {
 	var out []originLeaf
 	seen := map[ssa.Value]map[int]bool{}
@@ -65,6 +75,9 @@ func ssaOriginsX(v ssa.Value, stop func(*ssa.Function) bool, ip *core.Program) [
 			}
 			n := 0
 			for _, caller := range repoFuncsAndInstances(ip) {
+				if originsWithin != nil && !originsWithin[caller] {
+					continue
+				}
 				for _, b := range caller.Blocks {
 					for _, in := range b.Instrs {
 						if c, ok := in.(ssa.CallInstruction); ok && c.Common().StaticCallee() == fn && k >= 0 && k < len(c.Common().Args) {
@@ -173,6 +186,42 @@ func ssaOriginsX(v ssa.Value, stop func(*ssa.Function) bool, ip *core.Program) [
 					rec(a, idx, depth)
 				}
 				return
+			}
+			// text taken out of a local bytes.Buffer / strings.Builder: whatever was written into it
+			if sc := x.Common().StaticCallee(); sc != nil && len(x.Common().Args) == 1 && (sc.String() == "(*bytes.Buffer).String" || sc.String() == "(*bytes.Buffer).Bytes" || sc.String() == "(*strings.Builder).String") {
+				if al, ok := x.Common().Args[0].(*ssa.Alloc); ok && al.Referrers() != nil {
+					followed := true
+					var srcs []ssa.Value
+					for _, ref := range *al.Referrers() {
+						c, isCall := ref.(*ssa.Call)
+						if !isCall || c == x {
+							if _, isDbg := ref.(*ssa.DebugRef); !isDbg && !isCall {
+								followed = false
+							}
+							continue
+						}
+						wc := c.Common().StaticCallee()
+						if wc == nil {
+							followed = false
+							continue
+						}
+						switch wc.String() {
+						case "encoding/json.Indent", "encoding/json.Compact":
+							srcs = append(srcs, c.Common().Args[1]) // re-spaced copy of the source document
+						case "(*bytes.Buffer).Write", "(*bytes.Buffer).WriteString", "(*strings.Builder).WriteString", "(*strings.Builder).Write", "(*bytes.Buffer).WriteByte", "(*strings.Builder).WriteByte", "(*bytes.Buffer).WriteRune", "(*strings.Builder).WriteRune":
+							srcs = append(srcs, c.Common().Args[1])
+						case "(*bytes.Buffer).String", "(*bytes.Buffer).Bytes", "(*strings.Builder).String", "(*bytes.Buffer).Len", "(*strings.Builder).Len", "(*bytes.Buffer).Grow", "(*strings.Builder).Grow", "(*bytes.Buffer).Reset", "(*strings.Builder).Reset":
+						default:
+							followed = false
+						}
+					}
+					if followed && len(srcs) > 0 {
+						for _, sv := range srcs {
+							rec(sv, 0, depth+1)
+						}
+						return
+					}
+				}
 			}
 			callee := x.Common().StaticCallee()
 			if callee == nil && x.Common().IsInvoke() {
